@@ -388,6 +388,11 @@ func (s *ReverseInnerSearcher) Find(haystack []byte) *Match {
 			}
 			return nil
 		}
+		// Update anti-quadratic guard: whatever happens to this candidate, later
+		// reverse scans need not go back over the bytes this one covered.
+		if pos+s.innerLen > minMatchStart {
+			minMatchStart = pos + s.innerLen
+		}
 		if matchStart < 0 {
 			// Prefix doesn't match - try next candidate
 			searchStart = pos + 1
@@ -560,6 +565,11 @@ func (s *ReverseInnerSearcher) findIndicesAtImpl(haystack []byte, at int, fwdCac
 		if matchStart == lazy.SearchReverseLimitedQuadratic {
 			// Quadratic behavior detected - fall back to PikeVM
 			return s.pikevm.SearchAt(haystack, at)
+		}
+		// Update anti-quadratic guard: whatever happens to this candidate, later
+		// reverse scans need not go back over the bytes this one covered.
+		if pos+s.innerLen > minMatchStart {
+			minMatchStart = pos + s.innerLen
 		}
 		if matchStart < 0 || matchStart < at {
 			// Prefix doesn't match or match starts before 'at' - try next candidate
